@@ -369,8 +369,10 @@ class symeig_torchfcn(torch.autograd.Function):
                 gevecs = solve(A, -B, evals_offset, M, bck_options=ctx.bck_config,
                                **ctx.bck_config)  # (*BAM, na, neig)
 
-            # orthogonalize gevecs w.r.t. evecs
-            gevecsA = _ortho(gevecs, evecs, D=None, M=M, mright=True)
+            # orthogonalize gevecs w.r.t. evecs (and w.r.t. all the degenerate
+            # partners: the solution of the singular system above is only
+            # determined up to the whole degenerate subspace)
+            gevecsA = _ortho(gevecs, evecs, D=idx_degen, M=M, mright=True)
 
         # accummulate the gradient contributions
         gaccumA = gevalsA + gevecsA
